@@ -105,6 +105,11 @@ func (tm *typesMap) SetFuncName(funcName string, typs ...types.Type) (string, er
 		if tm.dedup {
 			return fName, nil
 		}
+		if ts, ok := tm.funcToTyps[funcName]; ok && tm.autoname && !eq(ts, typs) {
+			// funcName already belongs to other types, so this call is renamed anyway:
+			// rename it to the function that exists for its types.
+			return fName, nil
+		}
 		return "", fmt.Errorf("ambigious function names for type %s = (%s | %s)", typs, fName, funcName)
 	}
 	if ts, ok := tm.funcToTyps[funcName]; ok {
